@@ -81,7 +81,11 @@ def _prepare(case):
         dest = _dest(dk, dn)
         target = [1 if bus._addressed(g, {"short": ("gshort", dn), "int": ("gshort", dn), "group": ("ggroup", dn),
                                           "bcast": ("gbcast", 0), "unaddr": ("gunaddr", 0)}[dk]) else 0 for g in gear]
-        return (lambda: sequences.SetGroups(dest, set(case["want"]))), _answerer(bus), (
+        def request():
+            # the request as a set, or as one of the other set types Python programs hand around
+            w = set(case["want"])
+            return {"frozenset": frozenset(w), "keys": dict.fromkeys(sorted(w)).keys()}.get(case.get("wk"), w)
+        return (lambda: sequences.SetGroups(dest, request())), _answerer(bus), (
             lambda ev, out, top: {"seq": "SetGroups", "cfg": cfg, "ev": ev, "out": {"exc": out["exc"]},
                                   "want": sorted(case["want"]), "target": target,
                                   "readable": 1 if dk in ("short", "int") else 0, "case": top})
@@ -150,6 +154,8 @@ def cases(tier, seed):
         if dk == "unaddr":
             # gear without a short address: none, one or both of the two units
             c["s1"] = rng.choice([5, 255, 255])
+        if ix % 5 == 3:
+            c["wk"] = "frozenset" if ix % 2 else "keys"
         cs.append(c)
     # two sequences (two buses, one process) running interleaved: neither sees anything of the other
     sgs = [c for c in cs if c["kind"] == "sg"]
